@@ -83,6 +83,10 @@ const maxDurationSeconds = math.MaxInt64 / int64(time.Second)
 //	configuration namespace to the fields.
 //	If the tag option `replace` is configured, arrays and *ucfg.Config
 //	convertible fields are replaced by the new values.
+//	A nil *ucfg.Config field receives the setting itself (a live view of it).
+//	A non-nil *ucfg.Config field is merged into, unless it is itself a setting
+//	of a configuration (e.g. the view an earlier Unpack stored there): then the
+//	field receives a merged copy and that configuration is left as it is.
 //	If the tag options `append` or `prepend` is used, arrays will be merged by
 //	appending/prepending the new array contents.
 //	The struct tag options `replace`, `append`, and `prepend` overwrites the
@@ -761,7 +765,22 @@ func reifyMergeValue(
 			return oldValue, nil
 		}
 
-		// old != value -> merge value into old
+		if subOld.ctx.parent != nil {
+			// old is a setting of some configuration: the handle an earlier
+			// Unpack (of this or of another configuration, or of an Env
+			// configuration a reference resolved in) stored in the target, or
+			// one taken with Child. Unpack reads configurations, it never writes
+			// into one: the values are merged in a private copy of old, which
+			// takes its place in the target.
+			merged := cfgSub{subOld}.cpy(subOld.ctx).(cfgSub).c
+			if err := mergeFieldConfig(opts, merged, sub); err != nil {
+				return reflect.Value{}, err
+			}
+			v := reflect.ValueOf(merged).Convert(reflect.PtrTo(baseType))
+			return pointerize(t, baseType, v), nil
+		}
+
+		// old != value -> merge value into old (a configuration of the caller)
 		return oldValue, mergeFieldConfig(opts, subOld, sub)
 	}
 
